@@ -3,4 +3,4 @@ From Coq Require Import ExtrOcamlBasic.
 From ZV Require Import Ckpt.Model.
 Extraction Language OCaml.
 Extraction "model.ml" Z.of_N N.of_nat Nat.add N.to_nat enc_name less parse_hex purge_left purge_removed latest_checkpoint
-  mem_name restore_plan dir_lookup inode_meta vinit vstep vcopy vtransfer vfetch bsched_run bstart wrun backup_steps fetch_steps backup_ok restored_content rrun restore_steps open_after_crash fetch_run prepare valid_sources choose_source reuse_plan ck_lookup bytes_eqb.
+  mem_name restore_plan dir_lookup inode_meta vinit vstep vcopy vtransfer vfetch bsched_run bstart wrun backup_steps fetch_steps backup_ok restored_content rrun restore_steps open_after_crash fetch_run prepare backup_flush_then_capture h_logical valid_sources choose_source reuse_plan ck_lookup bytes_eqb.
